@@ -111,8 +111,81 @@ func storeJSON(api string, opt *JSONCfg, test string, doc, form string) (string,
 	return string(es[0].Body), nil
 }
 
+type namedString string
+type namedBytes []byte
+
 func checkC14(c c14Case) error {
 	compact := c.Tree.Compact()
+	// default-configuration witness: what the default configuration stores must not depend on calls made with other options
+	defBefore, err := storeJSON(c.API, nil, c.Test, compact, "string")
+	if err != nil {
+		return err
+	}
+	defer func() {}()
+	if err := checkC14Body(c, compact); err != nil {
+		return err
+	}
+	defAfter, err := storeJSON(c.API, nil, c.Test, string(c.Permuted), "bytes")
+	if err != nil {
+		return err
+	}
+	if defAfter != defBefore {
+		return fmt.Errorf("the default configuration stores %q differently after calls with options %+v (member order must not matter, keys are sorted by default):\nbefore %q\nafter  %q", clip(compact), c.Opt, clip(defBefore), clip(defAfter))
+	}
+	// Go values of defined string / byte-slice types go through their standard JSON encoding
+	for _, v := range []any{namedString("active"), namedString("12"), namedString(`{"a":1}`), namedBytes("blob"), json.RawMessage(compact), []string{"a", "<b>"}, map[namedString]int{"k": 1}} {
+		mb, merr := json.Marshal(v)
+		if merr != nil {
+			continue
+		}
+		viaText, err := storeJSON(c.API, c.Opt, c.Test, string(mb), "string")
+		if err != nil {
+			return err
+		}
+		viaValue, err := storeJSONValue(c.API, c.Opt, c.Test, v)
+		if err != nil {
+			return fmt.Errorf("Go value %T(%v): %v", v, v, err)
+		}
+		a, _ := parseJNode(viaText)
+		b, perr := parseJNode(viaValue)
+		if perr != nil || a.Canon() != b.Canon() {
+			return fmt.Errorf("Go value %T stores %q, its standard JSON encoding %q stores %q", v, clip(viaValue), mb, clip(viaText))
+		}
+	}
+	return nil
+}
+
+// storeJSONValue records a Go value (not text) in a fresh directory/process.
+func storeJSONValue(api string, opt *JSONCfg, test string, v any) (string, error) {
+	root := scratchDir()
+	defer os.RemoveAll(root)
+	newProcess(Mode{})
+	spec := CfgSpec{Dir: "snaps", Filename: "f", JSON: opt}
+	if api == "sjson" {
+		spec.Filename = ""
+	}
+	ft := newFakeT(test)
+	cfg := spec.build(root)
+	if api == "sjson" {
+		cfg.MatchStandaloneJSON(ft, v)
+	} else {
+		cfg.MatchJSON(ft, v)
+	}
+	ft.finish()
+	if e, _ := ft.drain(); len(e) != 0 {
+		return "", fmt.Errorf("storing the value failed: %q", clipAll(e))
+	}
+	if api == "sjson" {
+		return readFile(filepath.Join(root, spec.standalonePath(test, 1, true))), nil
+	}
+	es, err := refParse(readFile(filepath.Join(root, spec.multiPath())))
+	if err != nil || len(es) != 1 {
+		return "", fmt.Errorf("storing the value: %d entries (%v)", len(es), err)
+	}
+	return string(es[0].Body), nil
+}
+
+func checkC14Body(c c14Case, compact string) error {
 	sortKeys := c.Opt == nil || c.Opt.SortKeys
 	base, err := storeJSON(c.API, c.Opt, c.Test, compact, "string")
 	if err != nil {
